@@ -451,6 +451,7 @@ def lookup_leg(ctx, drv, only_request=None):
         o = lookup_oracle(req, a)
         if a_n != b:
             st["disagreements"] += 1
+            st["oracle_failures"] += 1 if o else 0
             ctx.finding("corr:offset-location:%s" % what,
                         dict(kind="correspondence", request=req, impl=a, model=b, oracle=o and o[1],
                              how_to_replay="./check C14 quick --replay <this file>   (or: echo '<request>' > r; "
@@ -526,7 +527,7 @@ def run(ctx):
         for j in range(0, len(corpus), 8):
             progs.append(G.build_program("c14corpus_%d" % (j // 8), corpus[j:j + 8], std_dir))
         if quick:
-            progs += G.gen_programs(ctx.seed, 68, per_program=11, singles=2, std_dir=std_dir)
+            progs += G.gen_programs(ctx.seed, 76, per_program=11, singles=2, std_dir=std_dir)
             progs += random_batches(ctx.seed, 12, 12)
         else:
             progs += G.gen_programs(ctx.seed, 520, per_program=10, singles=12, std_dir=std_dir)
@@ -642,7 +643,8 @@ def run(ctx):
                 continue
             stats["runs"] += 1
             distinct.add((sc.key, be, gc))
-            for hk in ["kind:" + sc.spec["kind"], "depth:%d" % len(sc.spec["chain"])] + ["link:" + l for l in sorted(set(sc.spec["chain"]))]:
+            for hk in ["kind:" + sc.spec["kind"], "depth:%d" % len(sc.spec["chain"]), "style:" + sc.spec.get("style", "-")] + \
+                    ["link:" + l for l in sorted(set(sc.spec["chain"]))]:
                 stats["hist"][hk] = stats["hist"].get(hk, 0) + 1
             rc, out, err = run_["rc"], run_["out"], run_["err"]
             msg, frames, rest = parse_report(err)
@@ -758,8 +760,10 @@ def run(ctx):
                    "gen/c14_traps.py (expected reports by construction, cross-checked against the reference interpreter DoraModel.Mini.Eval)",
                    "tools/c14_extract.py + tools/artifact_extract.py, gcc, llvm-objdump; link step copied from dora/src/driver/compile.rs"],
                theorems=po["theorems"], evaluations=stats["runs"], distinct_nontrivial=len(distinct),
-               rule="one case = (scenario, code generator, collector); a scenario = one failing operation kind (%d kinds) x a call chain of "
-                    "1-4 links out of %s; every case is non-trivial: it must end in one specific report" % (len(G.KINDS), "/".join(G.LINKS)),
+               rule="one case = (scenario, code generator, collector); a scenario = one failing operation kind (%d kinds) x the way it is "
+                    "written (let / expr / %s; the new styles are always followed by later position-carrying statements) x a call chain of "
+                    "1-4 links out of %s; every case is non-trivial: it must end in one specific report"
+                    % (len(G.KINDS), " / ".join(G.NEW_STYLES), "/".join(G.LINKS)),
                histogram=stats["hist"], samples=stats["samples"] or [dict(note="none")],
                disagreements=stats["disagreements"] + look["disagreements"], oracle_failures=stats["oracle_failures"] + look["oracle_failures"],
                bytecode_lookup=dict(look, rule="h_c14 vs drv_c14: `bctab` = a strictly increasing position table, offset_location at every "
